@@ -351,7 +351,10 @@ func (g *rg) stmt(d int) {
 }
 
 func (g *rg) tryStmt(d int) bool {
-	k := g.r.IntN(44)
+	k := g.r.IntN(45)
+	if g.o.Simplifiable && g.p(4) {
+		k = 41 + g.r.IntN(3) // what Simplify rewrites
+	}
 	switch {
 	case k < 5:
 		g.line("echo " + g.words(d, 1, 4))
@@ -715,6 +718,23 @@ func (g *rg) tryStmt(d int) bool {
 			"$\"a\\\\nb\"", "$\"t\\\\tx\"", "$\"q\\\"q\"", "\"x\\\\ty\"", "$\"c\\$d\"", "\"two\\\\\\\\bs\"", "$\"e\\\\x41\"",
 			"$(( $" + g.iv() + " + (1) ))", "$(( (" + g.iv() + ") ))", "\"${arr[(1)]}\"", "\"${" + g.v() + ":(0):(2)}\"", "$( (echo nested) )", "\"${arr[$" + g.iv() + "]}\"", "$(( ${" + g.iv() + "} * 2 ))",
 		}))
+	case k == 43 && g.o.Simplifiable:
+		// string comparisons in [[ ]] with quoted and unquoted operands on both
+		// sides, over values that contain glob characters: whether the right
+		// side is a pattern depends on exactly these quotes
+		g.f("simplifiable-test-quoting")
+		pv := g.pick([]string{"*", "a*", "?", "[ab]", "f*o", "ba?", "\\*"})
+		pn := g.v()
+		g.line(pn + "=" + "'" + pv + "'")
+		side := func() string {
+			return g.pick([]string{"\"$" + pn + "\"", "$" + pn, "\"${" + g.v() + "}\"", "$" + g.v(), "foo", "bar", "'*'", "\"a b\"", "ab"})
+		}
+		neg := g.pick([]string{"", "", "! "})
+		rhs := side()
+		if g.p(2) {
+			rhs = "\"$" + pn + "\""
+		}
+		g.line("[[ " + neg + side() + " " + g.pick([]string{"=", "==", "!=", "="}) + " " + rhs + " ]] && echo yes || echo no")
 	case k == 42 && g.o.Simplifiable:
 		g.f("simplifiable")
 		g.line(g.pick([]string{
